@@ -145,7 +145,6 @@ Proof.
       destruct b as [|[|[|b]]]; cbn in Hb; try discriminate; try lia;
       inversion Ha; inversion Hb; subst; vm_compute in E; try discriminate; inversion E; cbn; auto.
     all: try (destruct a; discriminate); try (destruct b; discriminate).
-    Show.
   - repeat constructor; unfold nz; discriminate.
   - cbn. intros [H|[H|[H|[]]]]; discriminate.
 Qed.
